@@ -495,38 +495,64 @@ structure OutParams where
   srcMasterNum : Nat
   srcChunkNum : Nat
 
+/-- one loop iteration either finishes with a value or continues with a new state -/
+inductive Iter (α : Type) where
+  | done (a : α)
+  | cont (a : α)
+
+/-- generic `while` loop with fuel; `f` is the loop body -/
+def iterate {α : Type} (f : α → R (Iter α)) : Nat → α → R α
+  | 0, _ => R.panic "fuel exhausted"
+  | n + 1, a =>
+    match f a with
+    | .ok (.done a') => .ok a'
+    | .ok (.cont a') => iterate f n a'
+    | .err e => .err e
+    | .panic w => .panic w
+    | .badChoice w => .badChoice w
+
+/-- `average + src_r` for source master `(chunk, part)` -/
+def srcFinalOf (P : OutParams) (srcChunk srcPart : Nat) : Nat :=
+  P.average + (if srcChunk * 2 + srcPart < P.remainder then 1 else 0)
+
+/-- `average + dst_r` for the `dstIdx`-th destination master -/
+def dstFinalOf (P : OutParams) (dstIdx : Nat) : Nat :=
+  P.average + (if P.srcMasterNum + dstIdx < P.remainder then 1 else 0)
+
+/-- body of the inner `while` of `remove_slots_from_src` for one source master -/
+def srcBody (P : OutParams) (srcChunk srcPart : Nat) (x : RangeList × LoopSt) :
+    R (Iter (RangeList × LoopSt)) :=
+  let rl := x.1
+  let st := x.2
+  if st.dstIdx == P.dstMasterNum then R.ok (.done (rl, st)) else
+  let srcFinal := srcFinalOf P srcChunk srcPart
+  let dstFinal := dstFinalOf P st.dstIdx
+  if slotsNum rl ≤ srcFinal then R.ok (.done (rl, st)) else
+  if dstFinal < st.curNum then R.panic "remove_slots_from_src: need_num underflow" else
+  let removeNum := min (dstFinal - st.curNum) (slotsNum rl - srcFinal)
+  match rl.getLast? with
+  | none => R.panic "remove_slots_from_src: slots > average + src_r >= 0"
+  | some last =>
+    let num := rangeNum last
+    let rl' := if removeNum ≥ num then rl.dropLast else rl.dropLast ++ [(last.1, last.2 - removeNum)]
+    let cur' := if removeNum ≥ num then st.curSlots ++ [last]
+                else st.curSlots ++ [(last.2 - removeNum + 1, last.2)]
+    let curNum' := if removeNum ≥ num then st.curNum + num else st.curNum + removeNum
+    if curNum' ≥ dstFinal || slotsNum rl' ≤ srcFinal then
+      let ms : MigSlots :=
+        { ranges := rlNew cur',
+          mm := { epoch := P.epoch, srcChunk := srcChunk, srcPart := srcPart,
+                  dstChunk := P.srcChunkNum + st.dstIdx / 2, dstPart := st.dstIdx % 2 } }
+      let st2 : LoopSt :=
+        if curNum' ≥ dstFinal then { dstIdx := st.dstIdx + 1, curSlots := [], curNum := 0, out := st.out ++ [ms] }
+        else { dstIdx := st.dstIdx, curSlots := [], curNum := curNum', out := st.out ++ [ms] }
+      if slotsNum rl' ≤ srcFinal then R.ok (.done (rl', st2)) else R.ok (.cont (rl', st2))
+    else R.ok (.cont (rl', { st with curSlots := cur', curNum := curNum' }))
+
 /-- the inner `while` of `remove_slots_from_src` for one source master -/
-def srcWhile (P : OutParams) (srcChunk srcPart : Nat) :
-    Nat → RangeList → LoopSt → R (RangeList × LoopSt)
-  | 0, _, _ => R.panic "fuel exhausted"
-  | fuel + 1, rl, st =>
-    if st.dstIdx == P.dstMasterNum then pure (rl, st) else
-    let srcIdx := srcChunk * 2 + srcPart
-    let srcFinal := P.average + (if srcIdx < P.remainder then 1 else 0)
-    let dstFinal := P.average + (if P.srcMasterNum + st.dstIdx < P.remainder then 1 else 0)
-    if slotsNum rl ≤ srcFinal then pure (rl, st) else
-    if dstFinal < st.curNum then R.panic "remove_slots_from_src: need_num underflow" else
-    let need := dstFinal - st.curNum
-    let avail := slotsNum rl - srcFinal
-    let removeNum := min need avail
-    match rl.getLast? with
-    | none => R.panic "remove_slots_from_src: slots > average + src_r >= 0"
-    | some last =>
-      let num := rangeNum last
-      let (rl', cur', curNum') :=
-        if removeNum ≥ num then (rl.dropLast, st.curSlots ++ [last], st.curNum + num)
-        else (rl.dropLast ++ [(last.1, last.2 - removeNum)],
-              st.curSlots ++ [(last.2 - removeNum + 1, last.2)], st.curNum + removeNum)
-      if curNum' ≥ dstFinal || slotsNum rl' ≤ srcFinal then
-        let ms : MigSlots :=
-          { ranges := rlNew cur',
-            mm := { epoch := P.epoch, srcChunk := srcChunk, srcPart := srcPart,
-                      dstChunk := P.srcChunkNum + st.dstIdx / 2, dstPart := st.dstIdx % 2 } }
-        let st2 : LoopSt :=
-          if curNum' ≥ dstFinal then { dstIdx := st.dstIdx + 1, curSlots := [], curNum := 0, out := st.out ++ [ms] }
-          else { dstIdx := st.dstIdx, curSlots := [], curNum := curNum', out := st.out ++ [ms] }
-        if slotsNum rl' ≤ srcFinal then pure (rl', st2) else srcWhile P srcChunk srcPart fuel rl' st2
-      else srcWhile P srcChunk srcPart fuel rl' { st with curSlots := cur', curNum := curNum' }
+def srcWhile (P : OutParams) (srcChunk srcPart : Nat) (fuel : Nat) (rl : RangeList) (st : LoopSt) :
+    R (RangeList × LoopSt) :=
+  iterate (srcBody P srcChunk srcPart) fuel (rl, st)
 
 def loopFuel : Nat := 2 * Um.Gen.SLOT_NUM + 16
 
@@ -607,45 +633,54 @@ structure DownParams where
   dstMasterNum : Nat
   existing : List Nat     -- dst_existing_slots_num
 
+/-- `average + dst_r` of the `dstIdx`-th destination master of a scale-down -/
+def downFinalOf (P : DownParams) (dstIdx : Nat) : Nat :=
+  P.average + (if dstIdx < P.remainder then 1 else 0)
+
+/-- body of the inner `while` of `remove_slots_from_src_to_scale_down` for one source master -/
+def downBody (P : DownParams) (srcChunk srcPart : Nat) (x : RangeList × LoopSt) :
+    R (Iter (RangeList × LoopSt)) :=
+  let rl := x.1
+  let st := x.2
+  if st.dstIdx == P.dstMasterNum then R.ok (.done (rl, st)) else
+  let dstFinal := downFinalOf P st.dstIdx
+  match P.existing[st.dstIdx]? with
+  | none => R.panic "remove_slots_from_src_to_scale_down: get dst existing slots number"
+  | some dstExisting =>
+  if dstFinal < st.curNum + dstExisting then R.panic "remove_slots_from_src_to_scale_down: need_num underflow" else
+  let need := dstFinal - st.curNum - dstExisting
+  if need == 0 then
+    -- this master already owns its final number of slots (fix fd69f7a)
+    R.ok (.cont (rl, { st with dstIdx := st.dstIdx + 1, curNum := 0 }))
+  else
+  let avail := slotsNum rl
+  if avail == 0 then R.ok (.done (rl, st)) else
+  let removeNum := min need avail
+  match rl with
+  | [] => R.panic "remove_slots_from_src_to_scale_down: available_num > 0"
+  | first :: rest =>
+    let num := rangeNum first
+    if removeNum < num && removeNum + first.1 == 0 then
+      R.panic "remove_slots_from_src_to_scale_down: remove_num + start - 1 underflow" else
+    let rl' := if removeNum ≥ num then rest else (first.1 + removeNum, first.2) :: rest
+    let cur' := if removeNum ≥ num then st.curSlots ++ [first]
+                else st.curSlots ++ [(first.1, removeNum + first.1 - 1)]
+    let curNum' := if removeNum ≥ num then st.curNum + num else st.curNum + removeNum
+    if curNum' + dstExisting ≥ dstFinal || slotsNum rl' == 0 then
+      let ms : MigSlots :=
+        { ranges := rlNew cur',
+          mm := { epoch := P.epoch, srcChunk := srcChunk, srcPart := srcPart,
+                  dstChunk := st.dstIdx / 2, dstPart := st.dstIdx % 2 } }
+      let st2 : LoopSt :=
+        if curNum' + dstExisting ≥ dstFinal then { dstIdx := st.dstIdx + 1, curSlots := [], curNum := 0, out := st.out ++ [ms] }
+        else { dstIdx := st.dstIdx, curSlots := [], curNum := curNum', out := st.out ++ [ms] }
+      if slotsNum rl' == 0 then R.ok (.done (rl', st2)) else R.ok (.cont (rl', st2))
+    else R.ok (.cont (rl', { st with curSlots := cur', curNum := curNum' }))
+
 /-- the inner `while` of `remove_slots_from_src_to_scale_down` for one source master -/
-def downWhile (P : DownParams) (srcChunk srcPart : Nat) :
-    Nat → RangeList → LoopSt → R (RangeList × LoopSt)
-  | 0, _, _ => R.panic "fuel exhausted"
-  | fuel + 1, rl, st =>
-    if st.dstIdx == P.dstMasterNum then pure (rl, st) else
-    let dstFinal := P.average + (if st.dstIdx < P.remainder then 1 else 0)
-    match P.existing[st.dstIdx]? with
-    | none => R.panic "remove_slots_from_src_to_scale_down: get dst existing slots number"
-    | some dstExisting =>
-    if dstFinal < st.curNum + dstExisting then R.panic "remove_slots_from_src_to_scale_down: need_num underflow" else
-    let need := dstFinal - st.curNum - dstExisting
-    if need == 0 then
-      -- this master already owns its final number of slots (fix fd69f7a)
-      downWhile P srcChunk srcPart fuel rl { st with dstIdx := st.dstIdx + 1, curNum := 0 }
-    else
-    let avail := slotsNum rl
-    if avail == 0 then pure (rl, st) else
-    let removeNum := min need avail
-    match rl with
-    | [] => R.panic "remove_slots_from_src_to_scale_down: available_num > 0"
-    | first :: rest =>
-      let num := rangeNum first
-      if removeNum < num && removeNum + first.1 == 0 then
-        R.panic "remove_slots_from_src_to_scale_down: remove_num + start - 1 underflow" else
-      let (rl', cur', curNum') :=
-        if removeNum ≥ num then (rest, st.curSlots ++ [first], st.curNum + num)
-        else ((first.1 + removeNum, first.2) :: rest,
-              st.curSlots ++ [(first.1, removeNum + first.1 - 1)], st.curNum + removeNum)
-      if curNum' + dstExisting ≥ dstFinal || slotsNum rl' == 0 then
-        let ms : MigSlots :=
-          { ranges := rlNew cur',
-            mm := { epoch := P.epoch, srcChunk := srcChunk, srcPart := srcPart,
-                      dstChunk := st.dstIdx / 2, dstPart := st.dstIdx % 2 } }
-        let st2 : LoopSt :=
-          if curNum' + dstExisting ≥ dstFinal then { dstIdx := st.dstIdx + 1, curSlots := [], curNum := 0, out := st.out ++ [ms] }
-          else { dstIdx := st.dstIdx, curSlots := [], curNum := curNum', out := st.out ++ [ms] }
-        if slotsNum rl' == 0 then pure (rl', st2) else downWhile P srcChunk srcPart fuel rl' st2
-      else downWhile P srcChunk srcPart fuel rl' { st with curSlots := cur', curNum := curNum' }
+def downWhile (P : DownParams) (srcChunk srcPart : Nat) (fuel : Nat) (rl : RangeList) (st : LoopSt) :
+    R (RangeList × LoopSt) :=
+  iterate (downBody P srcChunk srcPart) fuel (rl, st)
 
 /-- outer loops over the source chunks (`skip(dst_chunk_num)`); every source half ends `None` -/
 def downChunks (P : DownParams) : List Chunk → Nat → LoopSt → R (List Chunk × LoopSt)
